@@ -53,6 +53,8 @@
      type; promoted methods count as methods of the embedding type (Go semantics).
    * A custom folder whose output is not one well-formed value (`userCode`) puts no demand
      on Fold.
+   * 6c for a NIL slice / map whose type has a custom folder: the code inlines nothing (nil
+     is tested before the folder is called), the documentation is silent: no demand.
   NOT readings: points where the code used to differ from the documentation.  They were kept
   as documented, reported as findings, and are repaired on branch `fold-fixes`:
    * 6e for a string / slice / map / array type with IsZero: `IsZero()==true` ⇒ empty.
@@ -286,7 +288,13 @@ def inlineF : Nat → Bool → GoType → GoVal → Except RuleErr (List Seg)
       | .ok _ => .error .inlineNeedsObject
       | .error e => .error e
     match customOf reg t with
-    | some (n, byPtr) => asObject (customValue n byPtr v)
+    | some (n, byPtr) =>
+      -- reading: a NIL slice / map of a type with a custom folder in inline position — the
+      -- documentation says neither "nothing" (as for a nil pointer / nil map) nor "what the
+      -- folder emits": no demand
+      (match v with
+       | .nilSlice | .nilMap => .error .userCode
+       | _ => asObject (customValue n byPtr v))
     | none =>
     match t.under, v with
     | .ptr _, .nilPtr => .ok []
